@@ -4,10 +4,11 @@ import Logrange.Model.Registry
 # Model of TRUNCATE (`pkg/partition/partition.go`: `truncate`, `Service.Truncate`, `truncateGlobally`,
 `deleteJournal`; `pkg/backend/admin.go`: `cmdTruncate`)
 
-* `sizeLoop`, `timeLoop`, `choose` — the chooser of `Service.truncate` on the chunk list `cks` and the value
-  `jsize` that `jrnl.Size()` returned: the two `for` loops with their guards exactly as written, `uint64`
-  subtraction included (`sub64` wraps; `jsize` is a separate observation from the chunk sizes because the code
-  reads `jrnl.Size()` once and `cks[idx].Size()` again inside the loops).
+* `sizeLoop`, `timeLoop`, `chooseAt`, `choose` — the chooser of `Service.truncate` on the chunk list `cks`: the two
+  `for` loops with their guards exactly as written, `uint64` subtraction included (`sub64` wraps). Since fix
+  b1a5e66 the total the loops start from is the sum of the same snapshot `sizes[i]` of the chunk sizes the guards
+  subtract (`choose`); `chooseAt` is the loop pair started from an arbitrary total (the code before the fix started
+  from a separate `jrnl.Size()` read).
 * `truncate` — `n := idx; idx--; if idx < 0 || DryRun return; DeleteChunks(cks[idx].Id())`; the library removes
   every chunk whose id is `≤` that id (`deleteUpTo`).
 * `phase1Part` — the body of the visitor in `Service.Truncate` for one partition; `insertInfo` is the sorted
@@ -49,6 +50,8 @@ deriving DecidableEq, Repr, Inhabited
 def mkParams (dry : Bool) (min max : Option Nat) (before : Option Int) (maxdb : Option Nat) : Params :=
   { dryRun := dry, minSrc := min.getD 0, maxSrc := max.getD 0, oldestTs := before.getD 0, maxDB := maxdb.getD maxU64 }
 
+def psize (cks : List Chunk) : Nat := (cks.map (·.size)).sum
+
 /-! ## the chooser -/
 
 /-- the common shape of the two loops of `truncate`:
@@ -85,10 +88,14 @@ def sizePhase (p : Params) (cks : List Chunk) (jsize : Nat) : Nat × Nat :=
 def timePhase (strict : Bool) (p : Params) (cks : List Chunk) (k1 s1 : Nat) : Nat × Nat :=
   if 0 < p.oldestTs ∧ k1 < cks.length then timeLoop strict p.oldestTs p.minSrc (cks.drop k1) s1 else (0, s1)
 
-def choose (strict : Bool) (p : Params) (cks : List Chunk) (jsize : Nat) : Choice :=
-  let r1 := sizePhase p cks jsize
+/-- the two loops started from the total `size0` -/
+def chooseAt (strict : Bool) (p : Params) (cks : List Chunk) (size0 : Nat) : Choice :=
+  let r1 := sizePhase p cks size0
   let r2 := timePhase strict p cks r1.1 r1.2
   ⟨r1.1, r2.1, r2.2⟩
+
+/-- `sizes[i] = cks[i].Size(); size += sizes[i]`: the total is the sum of the snapshot the guards use -/
+def choose (strict : Bool) (p : Params) (cks : List Chunk) : Choice := chooseAt strict p cks (psize cks)
 
 /-- `DeleteChunks(lastCid)`: every chunk with id ≤ `lastCid` goes -/
 def deleteUpTo (lastId : Nat) (cks : List Chunk) : List Chunk := cks.filter (fun c => decide (lastId < c.id))
@@ -99,12 +106,12 @@ structure TruncRes where
   chunks : List Chunk     -- the partition's chunks afterwards
 deriving DecidableEq, Repr
 
-def truncate (strict : Bool) (p : Params) (cks : List Chunk) (jsize : Nat) : TruncRes :=
-  let ch := choose strict p cks jsize
-  if ch.n = 0 ∨ p.dryRun = true then ⟨ch.n, sub64 jsize ch.size, cks⟩
+def truncate (strict : Bool) (p : Params) (cks : List Chunk) : TruncRes :=
+  let ch := choose strict p cks
+  if ch.n = 0 ∨ p.dryRun = true then ⟨ch.n, sub64 (psize cks) ch.size, cks⟩
   else
     let rest := deleteUpTo (cks.getD (ch.n - 1) default).id cks
-    ⟨cks.length - rest.length, sub64 jsize ch.size, rest⟩
+    ⟨cks.length - rest.length, sub64 (psize cks) ch.size, rest⟩
 
 /-! ## the command -/
 
@@ -114,8 +121,6 @@ structure Part where
   users : Nat             -- holders of the partition other than the TRUNCATE itself
   chunks : List Chunk
 deriving DecidableEq, Repr, Inhabited
-
-def psize (cks : List Chunk) : Nat := (cks.map (·.size)).sum
 
 structure Info where
   latestTs : Int
@@ -131,9 +136,14 @@ def latestTs (cks : List Chunk) : Int :=
   | some c => c.maxTs
   | none => 0
 
-/-- sorted insertion of `Service.Truncate`: `idx := sort.Search(len, infos[i].LatestTs <= ti.LatestTs)`, insert at `idx` -/
+/-- the predicate of the sorted insertion (fix cac5c5d): `si.LatestTs < ti.LatestTs || (si.LatestTs == ti.LatestTs &&
+si.Src >= ti.Src)` — latest timestamp descending, equal timestamps by source id ascending -/
+def notBefore (si ti : Info) : Bool :=
+  decide (si.latestTs < ti.latestTs) || (si.latestTs == ti.latestTs && decide (ti.src ≤ si.src))
+
+/-- sorted insertion of `Service.Truncate`: `idx := sort.Search(len, notBefore(infos[i], ti))`, insert at `idx` -/
 def insertInfo (infos : List Info) (ti : Info) : List Info :=
-  let idx := Registry.sortSearch infos.length (fun i => decide ((infos.getD i default).latestTs ≤ ti.latestTs))
+  let idx := Registry.sortSearch infos.length (fun i => notBefore (infos.getD i default) ti)
   infos.take idx ++ ti :: infos.drop idx
 
 structure P1 where
@@ -154,7 +164,7 @@ def phase1Part (strict : Bool) (p : Params) (part : Part) : P1 :=
     else if canDelete part.users part.chunks = true then ⟨none, some ⟨0, part.src, 0, 0, 0, true⟩, none⟩
     else ⟨some part, none, none⟩
   else
-    let r := truncate strict p part.chunks size
+    let r := truncate strict p part.chunks
     let deleted := if r.removed = size then (p.dryRun || canDelete part.users r.chunks) else false
     let part' := if deleted = true ∧ p.dryRun = false then none else some { part with chunks := r.chunks }
     ⟨part', none, some ⟨latestTs part.chunks, part.src, size, sub64 size r.removed, r.n, deleted⟩⟩
@@ -178,6 +188,14 @@ def dbSet (db : List Part) (src : Nat) (cks : List Chunk) : List Part :=
 def dbRemove (db : List Part) (src : Nat) : List Part := db.filter (fun q => !(q.src == src))
 def dbFind (db : List Part) (src : Nat) : Option Part := db.find? (fun q => q.src == src)
 
+/-- what `truncateGlobally` writes into the entry of a partition it takes, `cks` being the chunk list it sees
+(fix 49b0b2b: `nck := len(cks); if tp.DryRun { nck -= ti.ChunksDeleted }` — a dry phase I removed nothing, the list
+still holds the chunks it already counted) -/
+def takenInfo (dry : Bool) (ti : Info) (cks : List Chunk) : Info :=
+  { ti with after := 0
+            chunksDeleted := ti.chunksDeleted + (if dry = true then cks.length - ti.chunksDeleted else cks.length)
+            deleted := true }
+
 /-- the loop of `truncateGlobally`; `ts` is the running total -/
 def globalLoop (strict : Bool) (gMin gMax : Nat) (p : Params) : List Info → Nat → List Part → List Info × List Part
   | [], _, db => ([], db)
@@ -190,12 +208,12 @@ def globalLoop (strict : Bool) (gMin gMax : Nat) (p : Params) : List Info → Na
           (ti :: r.1, r.2)
         | some part =>
           let cks := part.chunks
-          let tr := truncate strict { dryRun := p.dryRun, minSrc := gMin, maxSrc := gMax } cks (psize cks)
+          let tr := truncate strict { dryRun := p.dryRun, minSrc := gMin, maxSrc := gMax } cks
           let deleted := p.dryRun || canDelete part.users tr.chunks
           let db1 := if p.dryRun = true then db else if deleted = true then dbRemove db ti.src else dbSet db ti.src tr.chunks
           if deleted = true then
             let r := globalLoop strict gMin gMax p rest (sub64 ts ti.after) db1
-            ({ ti with after := 0, chunksDeleted := ti.chunksDeleted + cks.length, deleted := true } :: r.1, r.2)
+            (takenInfo p.dryRun ti cks :: r.1, r.2)
           else
             let r := globalLoop strict gMin gMax p rest ts db1
             (ti :: r.1, r.2)
